@@ -1,7 +1,7 @@
 """C16 — mem classification and bidi checks equal their per-character definitions."""
 from mirlib import *
 from ranges import *
-import scan
+import scan, r_kernel
 
 MANIFEST = {
     'category': 'other',
@@ -17,7 +17,11 @@ MANIFEST = {
             'complete valid sequences whose scalars are disjoint from the documented right-to-left list (for is_str_bidi validity is the '
             'precondition), (S2) `false`/None is returned only with the end of the buffer proven reached, (S3) `true`/Some is returned only '
             'when every valid completion of the bytes at the cursor is right-to-left (resp. non-Latin1) or the sequence is invalid or '
-            'proven truncated. The iterator kernels (as_chunks strides/tails) are decided by R-KERNEL.',
+            'proven truncated. (D5, R-KERNEL) the iterator kernels is_ascii_impl, is_basic_latin_impl, is_utf16_latin1_impl and, under simd-accel, '
+            'is_utf16_bidi_impl, is_str_latin1_bool_impl and check_utf16_for_latin1_and_bidi_impl return a whole-buffer verdict (true / false / '
+            'Latin1 / LeftToRight / the last part\'s own verdict) only after every part of the as_chunks tree (quad strides, strides, tail) was '
+            'walked to exhaustion in buffer order — early exits are exactly the returns inside an iteration or repeating an early-exit value. '
+            'SIMD lane arithmetic inside the vector predicates is not decided.',
     'note': 'Trusted: rustc MIR, mirx, rule library, the documented RTL block list transcribed in rules/p_c16.py, core iterator semantics (all/any/reduce/next).',
     'technique': 'abstract interpretation on rustc MIR: exact interval sets over one scalar input; path-sensitive interval products per byte with a distance-to-end zone and fixpoint invariants for the byte automata; control-dependence shape rules',
 }
@@ -286,5 +290,6 @@ def run(rep, facts, tier):
         d3_two_stage(rep, f, c, 'mem::check_utf8_for_latin1_and_bidi', 'mem::is_utf8_latin1_impl', 'mem::is_utf8_bidi')
         d3_two_stage(rep, f, c, 'mem::check_str_for_latin1_and_bidi', 'mem::is_str_latin1_impl', 'mem::is_str_bidi')
         d3_utf16(rep, f, c)
+        r_kernel.run(rep, f, c, 'R-KERNEL', ['classify'], stride=False)
         scan.run_specs(rep, f, c, 'R-SCAN', ['mem::is_utf8_bidi', 'mem::is_str_bidi', 'mem::is_utf8_latin1_impl', 'mem::is_str_latin1_impl'])
     return ('other', MANIFEST['text'], ['documented RTL list (mem::is_char_bidi doc comment) transcribed as RTL_CHAR'])
